@@ -15,7 +15,7 @@ R: the REAL kyrodb_server binary with API keys (max_vectors = 2), driven by srvd
 O: QuotaTrace.tla (TLC) folds over the events: counted usage = live count at every quiescent point, never above the
    limit, never refused below it, answers + census explained by some item-level interleaving of the requests.
 """
-import json, os, random, time
+import hashlib, json, os, random, time
 from concurrent.futures import ThreadPoolExecutor
 
 import vlib, srvlib
@@ -230,6 +230,12 @@ def run_sequence(si, beh, sd):
     rnd = random.Random(sd * 1000003 + 1400 + si)
     tenant = "q%04d" % si
     keys = [{"tenant_id": tenant, "max_vectors": LIMIT}, {"tenant_id": "other", "max_vectors": 1000}]
+    # every second history: the tenant has a second enabled API key (key rotation); requests alternate between the two.
+    # The quota is the tenant's, however many keys it has - also after the start-up recount.
+    key2 = None
+    if si % 2 == 1:
+        key2 = "kyro_%s_%s" % (tenant, hashlib.sha256(("verif-rotated:" + tenant).encode()).hexdigest()[:32])   # same format, other secret
+        keys.insert(1, {"tenant_id": tenant, "key": key2, "max_vectors": LIMIT})
     events, detail, void = [{"ev": "reset", "n": -1, "limit": LIMIT}], [None], 0
     srv = srvlib.Server(config=SERVER_CFG, api_keys=keys, name="c14s%d" % si)
     try:
@@ -247,6 +253,8 @@ def run_sequence(si, beh, sd):
             for op in seg:
                 marks.append(len(script))
                 script.append(concrete_rpc(srv, tenant, op, rnd))
+                if key2 and rnd.random() < 0.5 and isinstance(script[-1], dict) and script[-1].get("key"):
+                    script[-1]["key"] = key2
                 script += measure_reqs(srv, tenant)
             recs = srv.run_script(script, timeout_ms=15000)
             per = 1 + len(measure_reqs(srv, tenant))
